@@ -129,6 +129,7 @@ pub struct Frame {
     pub bytes: Vec<u8>,
     pub info: FrameInfo,
     pub sent_at: tokio::time::Instant,
+    pub delivered_at: Option<tokio::time::Instant>,
 }
 
 #[derive(Clone, Debug)]
@@ -171,6 +172,10 @@ pub struct WorldState {
     pub next_seq: u64,
     pub pair_seq: HashMap<(String, String), u64>,
     pub trace: Vec<Ev>,
+    /// every frame that reached its destination, in delivery order
+    pub delivered: Vec<Frame>,
+    /// virtual send time of every DHT request, by message id
+    pub sent_times: HashMap<String, tokio::time::Instant>,
 }
 
 #[derive(Clone)]
@@ -244,6 +249,9 @@ impl World {
             return None;
         }
         w.trace.push(Ev::Delivered { seq: f.seq, from: f.src.clone(), to: f.dst.clone(), kind: f.info.kind(), msg_id });
+        let mut fd = f.clone();
+        fd.delivered_at = Some(tokio::time::Instant::now());
+        w.delivered.push(fd);
         if !scripted {
             let mut src_tid = [0u8; 32];
             if let Ok(b) = hex::decode(&f.src) {
@@ -287,8 +295,11 @@ fn push_frame(w: &mut WorldState, src: &str, dst: &str, bytes: Vec<u8>) {
     let pair_seq = *ps;
     let info = decode_info(&bytes);
     let msg_id = info.dht.as_ref().map(|m| m.message_id.clone()).or_else(|| info.rr.as_ref().map(|r| r.0.clone())).unwrap_or_default();
+    if info.is_dht_request() {
+        w.sent_times.insert(msg_id.clone(), tokio::time::Instant::now());
+    }
     w.trace.push(Ev::Sent { seq, from: src.to_string(), to: dst.to_string(), kind: info.kind(), msg_id });
-    w.pending.push(Frame { seq, src: src.to_string(), dst: dst.to_string(), pair_seq, bytes, info, sent_at: tokio::time::Instant::now() });
+    w.pending.push(Frame { seq, src: src.to_string(), dst: dst.to_string(), pair_seq, bytes, info, sent_at: tokio::time::Instant::now(), delivered_at: None });
 }
 
 pub struct Sock {
